@@ -30,6 +30,7 @@ fn main() {
         "cli" => h::eng_cli::main(rest),
         "keys" => h::eng_keys::main(rest),
         "capi" => h::eng_capi::main(rest),
+        "cdriver" => h::eng_capi::main_cdriver(rest),
         "mem" => h::eng_mem::main(rest),
         "compfs" => h::eng_compfs::main(rest),
         "rloop" => h::eng_rloop::main(rest),
